@@ -247,6 +247,44 @@ func TestVerifReplayMath(t *testing.T) {
 			}
 		}
 	}
+	// 2b. literal forms (0x / 0b / decimal / exponent) next to every arithmetic operator, written
+	// with and without blanks: the literal ends where the operator starts, whatever its last digit
+	lits := []struct {
+		s string
+		v float64
+	}{{"0x1e", 30}, {"0xBE", 190}, {"0x0e", 14}, {"0xfe", 254}, {"0x1f", 31}, {"0xE", 14}, {"0b101", 5}, {"0b1110", 14}, {"10", 10}, {"2.5", 2.5}, {"1e3", 1000}, {"7", 7}}
+	for _, a := range lits {
+		for _, b := range lits {
+			for _, o := range []string{"+", "-", "*", "/"} {
+				for _, f := range []string{a.s + o + b.s, a.s + " " + o + " " + b.s, "(" + a.s + o + b.s + ")" + o + "2", "2*" + a.s + o + "1"} {
+					var want float64
+					switch {
+					case strings.HasPrefix(f, "("):
+						want = vrApply(o, vrApply(o, a.v, b.v), 2)
+					case strings.HasPrefix(f, "2*"):
+						if o == "*" || o == "/" {
+							want = vrApply(o, 2*a.v, 1)
+						} else {
+							want = vrApply(o, 2*a.v, 1)
+						}
+					default:
+						want = vrApply(o, a.v, b.v)
+					}
+					got, err, p := vrSafeEval(f, []float64{0, 0})
+					if p != nil || err != nil {
+						fmt.Printf("REPRODUCED: well-formed formula %q rejected or panics: %v %v\n", f, err, p)
+						t.Fail()
+						return
+					}
+					if !vrSame(got, want) {
+						fmt.Printf("REPRODUCED: formula %q evaluates to %v, want %v\n", f, got, want)
+						t.Fail()
+						return
+					}
+				}
+			}
+		}
+	}
 	// 3. constants equal bound variables
 	for _, tr := range depth2 {
 		f := tr.print(99, false)
